@@ -6,7 +6,20 @@ Harness files start with directive comments:
 A witness (concrete_vals of the single `kani::any::<[u8; N]>()`) is extracted with --concrete-playback=print and
 replayed natively on the real code by the `#[test]` replay function of the same module.
 """
-import json, os, re, shlex, shutil, subprocess, time
+import json, os, re, shlex, shutil, signal, subprocess, time
+
+def _run(cmd, cwd, env, timeout):
+    """run with a process group, so that a timeout also kills cbmc / kani-driver children"""
+    p = subprocess.Popen(cmd, cwd=cwd, env=env, stdout=subprocess.PIPE, stderr=subprocess.STDOUT, text=True, start_new_session=True)
+    try:
+        out, _ = p.communicate(timeout=timeout)
+        return p.returncode, out, False
+    except subprocess.TimeoutExpired:
+        try: os.killpg(p.pid, signal.SIGKILL)
+        except Exception: pass
+        try: out, _ = p.communicate(timeout=10)
+        except Exception: out = ''
+        return -9, out or '', True
 
 def parse_harness_file(path):
     txt = open(path).read()
@@ -59,11 +72,8 @@ def run_one(d, h, timeout):
     env = dict(os.environ, CARGO_NET_OFFLINE='true')
     cmd = ['cargo', 'kani', '-Z', 'stubbing', '-Z', 'function-contracts', '--harness', h['name'], '--output-format', 'terse']
     t0 = time.time()
-    try:
-        p = subprocess.run(cmd, cwd=cd, env=env, capture_output=True, text=True, timeout=timeout)
-        out = p.stdout + p.stderr
-    except subprocess.TimeoutExpired as e:
-        out = ((e.stdout or b'').decode(errors='replace') if isinstance(e.stdout, bytes) else (e.stdout or '')) + '\nTIMEOUT'
+    rc, out, timed_out = _run(cmd, cd, env, timeout)
+    if timed_out:
         return {'status': 'TIMEOUT', 'wall': time.time() - t0, 'tail': out[-1500:], 'cmd': ' '.join(cmd)}
     wall = time.time() - t0
     res = {'wall': wall, 'tail': out[-2500:], 'cmd': 'cd <scratch>/kani-src/%s && CARGO_NET_OFFLINE=true %s' % (os.path.relpath(cd, d), ' '.join(cmd))}
@@ -91,11 +101,8 @@ def witness(d, h, timeout):
     env = dict(os.environ, CARGO_NET_OFFLINE='true')
     cmd = ['cargo', 'kani', '-Z', 'stubbing', '-Z', 'function-contracts', '-Z', 'concrete-playback', '--concrete-playback=print',
            '--harness', h['name'], '--output-format', 'terse']
-    try:
-        p = subprocess.run(cmd, cwd=cd, env=env, capture_output=True, text=True, timeout=timeout)
-    except subprocess.TimeoutExpired:
-        return None
-    out = p.stdout + p.stderr
+    rc, out, timed_out = _run(cmd, cd, env, timeout)
+    if timed_out: return None
     k = out.find('concrete_vals')
     if k < 0: return None
     blk = out[k:out.find('];', k)]
